@@ -259,8 +259,18 @@ Arguments replace_all {A}.
 (* ------------------------------------------------------------------ *)
 (* values and Python's str()/repr()/truthiness on them                  *)
 
-Inductive item := IStr (s : str) | IDict (kvs : list (str * str)).   (* dict: string-valued, in dict order *)
-Inductive value := VStr (s : str) | VInt (z : Z) | VBool (b : bool) | VList (l : list item).
+(* loop items: strings, string-valued dicts (in dict order), ints, bools, None, and values
+   whose str()/repr() the harness supplies pre-rendered (floats, tuples) *)
+Inductive item :=
+| IStr (s : str) | IDict (kvs : list (str * str))
+| IInt (z : Z) | IBool (b : bool) | INone | IOpaque (s r : str).
+(* context values: ..., None, a pre-rendered value with its truthiness (floats), tuples *)
+Inductive value :=
+| VStr (s : str) | VInt (z : Z) | VBool (b : bool) | VList (l : list item)
+| VNone | VOpaque (s : str) (t : bool) | VTuple (l : list item).
+(* isinstance(v, (list, tuple)) *)
+Definition seq_of (v : value) : option (list item) :=
+  match v with VList l | VTuple l => Some l | _ => None end.
 Definition ctx := list (str * value).
 
 Fixpoint lookup {X} (c : list (str * X)) (x : str) : option X :=
@@ -271,6 +281,8 @@ Fixpoint lookup {X} (c : list (str * X)) (x : str) : option X :=
 
 Definition bound {X} (c : list (str * X)) (x : str) : bool :=
   match lookup c x with Some _ => true | None => false end.
+Definition lookup_seq (c : ctx) (x : str) : option (list item) :=
+  match lookup c x with Some v => seq_of v | None => None end.
 
 (* decimal digits of a positive number, fuelled by its binary size (enough: a number
    has no more decimal than binary digits) *)
@@ -284,10 +296,6 @@ Definition dec (z : Z) : str :=
   if z =? 0 then [48]
   else if z <? 0 then 45 :: dec_pos (S (Z.to_nat (Z.log2 (- z)))) (- z) []
   else dec_pos (S (Z.to_nat (Z.log2 z))) z [].
-
-Definition S_TRUE := Eval vm_compute in zs "True".
-Definition S_FALSE := Eval vm_compute in zs "False".
-Definition str_bool (b : bool) : str := if b then S_TRUE else S_FALSE.
 
 Fixpoint join (sep : str) (l : list str) : str :=
   match l with
@@ -316,16 +324,30 @@ Definition py_repr (s : str) : str :=
 
 Definition repr_dict (kvs : list (str * str)) : str :=
   [LB] ++ join [44; 32] (map (fun kv => py_repr (fst kv) ++ [58; 32] ++ py_repr (snd kv)) kvs) ++ [RB].
+Definition S_TRUE := Eval vm_compute in zs "True".
+Definition S_FALSE := Eval vm_compute in zs "False".
+Definition S_NONE := Eval vm_compute in zs "None".
+Definition str_bool (b : bool) : str := if b then S_TRUE else S_FALSE.
 Definition repr_item (it : item) : str :=
-  match it with IStr s => py_repr s | IDict kvs => repr_dict kvs end.
+  match it with
+  | IStr s => py_repr s | IDict kvs => repr_dict kvs
+  | IInt z => dec z | IBool b => str_bool b | INone => S_NONE | IOpaque _ r => r
+  end.
 Definition str_item (it : item) : str :=
-  match it with IStr s => s | IDict kvs => repr_dict kvs end.
+  match it with
+  | IStr s => s | IDict kvs => repr_dict kvs
+  | IInt z => dec z | IBool b => str_bool b | INone => S_NONE | IOpaque s _ => s
+  end.
 Definition str_value (v : value) : str :=
   match v with
   | VStr s => s
   | VInt z => dec z
   | VBool b => str_bool b
   | VList l => [91] ++ join [44; 32] (map repr_item l) ++ [93]
+  | VNone => S_NONE
+  | VOpaque s _ => s
+  | VTuple l => [40] ++ join [44; 32] (map repr_item l) ++
+                match l with [_] => [44] | _ => [] end ++ [41]
   end.
 Definition truthy (v : value) : bool :=
   match v with
@@ -333,6 +355,9 @@ Definition truthy (v : value) : bool :=
   | VInt z => negb (z =? 0)
   | VBool b => b
   | VList l => nonempty l
+  | VNone => false
+  | VOpaque _ t => t
+  | VTuple l => nonempty l
   end.
 
 (* ------------------------------------------------------------------ *)
@@ -368,7 +393,7 @@ Definition apply_filter (f : str) (v : value) : str + error :=
   else if str_eqb f F_LENGTH then
     match v with
     | VStr s => inl (dec (Z.of_nat (length s)))
-    | VList l => inl (dec (Z.of_nat (length l)))
+    | VList l | VTuple l => inl (dec (Z.of_nat (length l)))
     | _ => inr EType
     end
   else inr EUnmodelled.
@@ -428,8 +453,8 @@ Definition loop_context (i n : nat) (it : item) : list (str * str) :=
   let base := [(K_DOT, str_item it); (K_ITEM, str_item it); (K_INDEX, dec (Z.of_nat i));
                (K_FIRST, str_bool (Nat.eqb i 0)); (K_LAST, str_bool (Z.of_nat i =? Z.of_nat n - 1))] in
   match it with
-  | IStr _ => base
   | IDict kvs => fold_left (fun d kv => dict_set d (fst kv) (snd kv)) kvs base
+  | _ => base
   end.
 Definition key_pattern (k : str) : str := K_OPEN ++ k ++ K_CLOSE.
 
@@ -446,9 +471,9 @@ Fixpoint loop_items (legacy : bool) (body : str) (n i : nat) (items : list item)
 Definition pass_each (legacy : bool) (c : ctx) (s : str) : str :=
   subst (fun (m : str * str) _ =>
            let '(x, body) := m in
-           match lookup c x with
-           | Some (VList items) => loop_items legacy body (length items) O items
-           | _ => []
+           match lookup_seq c x with
+           | Some items => loop_items legacy body (length items) O items
+           | None => []
            end)
         (scan (m_each idz) O s).
 
